@@ -6,6 +6,8 @@ use crate::rng::Rng;
 
 pub const TOPIC_POOL: &[&str] = &[
     "", "a", "ab", "abc", "a.b", "a\u{1}", "a\u{1}b", "a\u{7f}", "a\u{80}", "a\u{ff}", "é", "日本", "a\u{10ffff}", "b", "topic", "a.b.c",
+    // whitespace is part of a topic like any other byte
+    " a", "a ", " ", "a\u{3000}",
 ];
 
 pub const NUL_TOPICS: &[&str] = &["\0", "a\0", "a\0b", "\0a", "ab\0"];
